@@ -9,6 +9,7 @@ package main
 
 import (
 	"bytes"
+	"errors"
 	"context"
 	"encoding/json"
 	"fmt"
@@ -33,11 +34,16 @@ import (
 	"verif/lib/world"
 )
 
-type bsh struct{}
+type bsh struct{ fail bool }
 
 func (bsh) SaveMagicBlock() chain.MagicBlockSaveFunc                                       { return nil }
 func (bsh) UpdatePendingBlock(context.Context, *block.Block, []datastore.Entity)          {}
-func (bsh) UpdateFinalizedBlock(context.Context, *block.Block) error                      { return nil }
+func (h bsh) UpdateFinalizedBlock(context.Context, *block.Block) error {
+	if h.fail {
+		return errors.New("verif: injected failure in UpdateFinalizedBlock")
+	}
+	return nil
+}
 
 // a block action = list of transactions, each a list of kvsc ops
 type blockAct struct {
@@ -130,7 +136,7 @@ func main() {
 	}
 	run := ev.Start("C27")
 	depth := run.Pick(4, 5)
-	firstRound = 103 - depth // the last block of a full history is at round 102: the production prune (version 100) fires
+	firstRound = 104 - depth // blocks of a history of depth-1 end at round 102 and those of a full history at 103: the production prune (version 100) fires
 	acts := alphabet(run.Thorough())
 	if os.Getenv("VERIF_SHARD") == "" {
 		parent(run, depth, acts)
@@ -195,7 +201,7 @@ func parent(run *ev.Run, depth int, acts []blockAct) {
 		}
 	}
 	run.Add(hist, blocks+prunes+crashes, reads)
-	run.Rule = "all histories of <= depth blocks over the block alphabet (puts, deletes, delete-and-recreate-identical within one transaction / across transactions of one block / across blocks, failed transaction, empty block) at rounds 98.. so that the production prune version (a multiple of 100) is crossed; after every finalization: real pruneClientState, and for every version v the real PruneBelowVersion(v) on a restored copy of the DB, with a crash at every prefix of the prune's write log followed by a re-run; distinct = distinct (action, prune outcome) classes"
+	run.Rule = "all histories of depth blocks without faults, and all histories of depth-1 blocks with ONE failed finalization attempt of a different block for the same round (fault injected in UpdateFinalizedBlock, after save-changes and dead-node recording) at every position, over the block alphabet (puts, deletes, delete-and-recreate-identical within one transaction / across transactions of one block / across blocks, failed transaction, empty block) at rounds 98.. so that the production prune version (a multiple of 100) is crossed; after every finalization: real pruneClientState, and for every version v the real PruneBelowVersion(v) on a restored copy of the DB, with a crash at every prefix of the prune's write log followed by a re-run; distinct = distinct (action, prune outcome) classes"
 	run.Bounds["depth"] = depth
 	run.Bounds["alphabet"] = len(acts)
 	run.Bounds["first_round"] = firstRound
@@ -252,7 +258,10 @@ func worker(run *ev.Run, depth int, acts []blockAct) {
 		}
 	}
 	var rec func(prefix []int)
-	runHistory := func(seq []int) {
+	// failAt >= 0: before block failAt is finalized, a DIFFERENT block for the same round (action
+	// failAct on the same parent) is executed and its finalization fails inside UpdateFinalizedBlock
+	// (after its changes were saved and its dead nodes recorded) - the retried-finalization fault.
+	runHistory := func(seq []int, failAt, failAct int) {
 		// fresh start: DB back to the genesis snapshot, chain back to genesis
 		vs.Restore(base)
 		w.Chain.SetupStateCache()
@@ -265,6 +274,28 @@ func worker(run *ev.Run, depth int, acts []blockAct) {
 			a := acts[ai]
 			hist = append(hist, a.Name)
 			rnd := int64(firstRound + i)
+			if i == failAt {
+				fa := acts[failAct]
+				hist[len(hist)-1] = "[failed attempt: " + fa.Name + "] " + a.Name
+				alt := w.Open(parent, rnd, w.Genesis.CreationDate+common.Timestamp(10+i), w.Miners[1], 2000+rnd, strings.Join(hist, "/")+"#alt")
+				n2 := nonce
+				for _, ops := range fa.Txns {
+					n2++
+					data, _ := json.Marshal(ops)
+					t := w.Txn(world.TxnSpec{From: c0, To: kvsc.Address, Type: transaction.TxnTypeSmartContract, Nonce: n2, Data: world.SC("run", json.RawMessage(data)), Time: alt.Block.CreationDate})
+					if _, err := w.Exec(alt, t); err != nil {
+						ev.Fatal("exec alt %s: %v", fa.Name, err)
+					}
+				}
+				w.CloseBlock(alt)
+				w.Chain.AddRound(round.NewRound(rnd))
+				w.Chain.AddBlock(alt.Block)
+				alt.Block.RoundRank = 0
+				if err := w.Chain.VerifFinalizeBlock(w.Ctx, alt.Block, bsh{fail: true}); err == nil {
+					ev.Fatal("injected finalization failure did not fail")
+				}
+				so.Outcomes["failed-finalization-attempt:"+fa.Name]++
+			}
 			nd := w.Open(parent, rnd, w.Genesis.CreationDate+common.Timestamp(10+i), w.Miners[0], 1000+rnd, strings.Join(hist, "/"))
 			for _, ops := range a.Txns {
 				nonce++
@@ -303,6 +334,7 @@ func worker(run *ev.Run, depth int, acts []blockAct) {
 			if lfb-2 >= 100 {
 				prodV = 100
 			}
+			_ = prodV
 			checkAll(fin, prodV, "pruneClientState", hist)
 			// (2) every version v directly, on a copy, with crash points
 			snap := vs.Snapshot()
@@ -334,17 +366,27 @@ func worker(run *ev.Run, depth int, acts []blockAct) {
 			so.Samples = append(so.Samples, hist)
 		}
 	}
+	one := func(seq []int, failAt, failAct int) {
+		counter++
+		if counter%n != idx {
+			return
+		}
+		if time.Now().After(deadline) {
+			so.Capped = "time budget hit"
+			return
+		}
+		runHistory(seq, failAt, failAct)
+	}
 	rec = func(prefix []int) {
+		if len(prefix) == depth-1 { // shorter histories carry the fault dimension: one failed attempt at any position
+			for at := 0; at < len(prefix); at++ {
+				for _, fa := range []int{1, 2} { // put(a,2), del(a)
+					one(prefix, at, fa)
+				}
+			}
+		}
 		if len(prefix) == depth {
-			counter++
-			if counter%n != idx {
-				return
-			}
-			if time.Now().After(deadline) {
-				so.Capped = "time budget hit"
-				return
-			}
-			runHistory(prefix)
+			one(prefix, -1, 0)
 			return
 		}
 		for ai := range acts {
